@@ -126,6 +126,19 @@ func (a *HypAttributes) Validate() error {
 		return fmt.Errorf("destination domain %d is a Noble domain", a.DestinationDomain)
 	}
 
+	// NOTE: the Warp module builds sdk.Coins from the max fee, which panics on a negative
+	// amount or on a positive amount with an invalid denom.
+	if !a.MaxFee.Amount.IsNil() {
+		if a.MaxFee.Amount.IsNegative() {
+			return fmt.Errorf("max fee cannot be negative, got: %s", a.MaxFee.Amount)
+		}
+		if a.MaxFee.Amount.IsPositive() {
+			if err := sdk.ValidateDenom(a.MaxFee.Denom); err != nil {
+				return fmt.Errorf("invalid max fee denom: %w", err)
+			}
+		}
+	}
+
 	if a.CustomHookMetadata != "" {
 		if !strings.HasPrefix(a.CustomHookMetadata, HypHookMetadataPrefix) {
 			return fmt.Errorf("hook metadata must have the %s prefix, got: %s",
